@@ -610,7 +610,52 @@ fn check_messages(ctx: &Ctx, b: &Base, rng: &mut Rng) {
     }
 }
 
+/// The same `.message` / `.warning` line assembled hundreds of times in a row (a macro called again and again, a
+/// file included again and again, a line repeated in the source): every one of them is in the list.
+fn repeated_messages(ctx: &Ctx) {
+    for n in [2usize, 100, 101, 150, 256, 1000] {
+        for (how, src, line_of) in [
+            ("macro-called-again", format!(".macro note\n\tnop\n.warning \"again\"\n.endm\n{}", "\tnote\n".repeat(n)), Box::new(|_k: usize| 3usize) as Box<dyn Fn(usize) -> usize>),
+            ("line-repeated", format!("\tnop\n{}", ".message \"again\"\n".repeat(n)), Box::new(|k: usize| 2 + k)),
+            ("macro-with-argument-in-between", format!(".macro note\n.message \"again\"\n\tldi r16, @0\n.endm\n{}", (0..n).map(|k| format!("\tnote {}\n", k % 200)).collect::<String>()), Box::new(|_k: usize| 2)),
+        ] {
+            let out = fw::build_str(&src);
+            ctx.eval(1);
+            ctx.count("repeated_message_programs", 1);
+            let ok = match &out {
+                Outcome::Ok(b) => b.messages.len() == n && b.messages.iter().enumerate().all(|(k, m)| m.contains("again") && has_line_token(m, line_of(k))),
+                _ => false,
+            };
+            if !ok {
+                let got = match &out { Outcome::Ok(b) => b.messages.len(), _ => 0 };
+                ctx.violation(
+                    format!("diag/messages/repeated/{}", how),
+                    format!("{} times the same message ({}): {} entries in the list ({:?})", n, how, got, out.kind()),
+                    json!({"source": src, "base": "", "kind": "repeated-messages", "expected_count": n, "observed": fw::clip(&format!("{:?}", out.brief()), 300)}),
+                );
+            }
+        }
+    }
+    // a file with a message, included again and again
+    for n in [2usize, 101, 120, 300] {
+        let main = format!("\tnop\n{}", ".include \"part.inc\"\n".repeat(n));
+        let out = fw::build_main_with_part(&main, "\tnop\n.message \"from the file\"\n");
+        ctx.eval(1);
+        ctx.count("repeated_message_programs", 1);
+        let ok = match &out {
+            Outcome::Ok(b) => b.messages.len() == n && b.messages.iter().all(|m| m.contains("from the file") && has_line_token(m, 2)),
+            Outcome::Err(e) if e.starts_with("HARNESS:") => true,
+            _ => false,
+        };
+        if !ok {
+            let got = match &out { Outcome::Ok(b) => b.messages.len(), _ => 0 };
+            ctx.violation("diag/messages/repeated/file-included-again", format!("a file with one .message included {} times: {} entries in the list ({:?})", n, got, out.kind()), json!({"main": main, "part": "\tnop\n.message \"from the file\"\n", "kind": "messages", "expected": (0..n).map(|_| json!({"line": 2, "text": "from the file", "warning": false})).collect::<Vec<_>>()}));
+        }
+    }
+}
+
 pub fn run(ctx: &Ctx) -> i32 {
+    repeated_messages(ctx);
     let n = ctx.tier.pick(300u64, 10_000u64);
     fw::par_for(n, 4, |i| {
         let mut rng = Rng::for_case(ctx.seed, 0xC15, i);
@@ -695,6 +740,13 @@ pub fn replay(ctx: &Ctx, case: &Value) -> i32 {
     ctx.eval(1);
     ctx.distinct(1);
     ctx.distinct(2);
+    if case["kind"].as_str() == Some("repeated-messages") {
+        let n = case["expected_count"].as_u64().unwrap_or(0) as usize;
+        if !matches!(&out, Outcome::Ok(b) if b.messages.len() == n) {
+            ctx.violation("diag/replay", "the list still does not hold every message", case.clone());
+        }
+        return fw::finish(ctx, "replay", &[]);
+    }
     if case["kind"].as_str() == Some("messages") {
         let base = fw::build_str(case["base"].as_str().unwrap_or(""));
         let same = match (&out, &base) {
